@@ -58,7 +58,10 @@ def main():
                         + ', '.join(sorted({'%s/%s' % (e['profile'], e['flavour']) for e in props.TV.get(pid, [])}))
                         + ': long histories, boundary-dense values) are executed on the real code, recorded, and validated by TLC against '
                         'spec/Trace.tla: every recorded step must be a step the specification allows, and every property formula is '
-                        'evaluated in every state of every recorded execution.',
+                        'evaluated in every state of every recorded execution.  The same is done with what the repository\'s own tests do: '
+                        'a recording plugin (harness/recplug.py) logs every public call of every H2Connection the tests create ('
+                        + ', '.join(os.path.basename(f) for f in props.CORPUS.get(pid, [])) + ' in the quick tier, the whole suite in the '
+                        'thorough tier) and TLC validates the recordings.',
                 'design_ref': 'DESIGN.md section 0 (as-built status) and sections 2-6',
             },
             'level_note': 'trusted: TLC, the TLA+ model spec/H2.tla + Headers.tla + Scn.tla (as-built, deviation branches marked), '
